@@ -180,6 +180,56 @@ def r18_5(ctx, fx):
     ctx.anchor("R18.5", "callers of from_public_key_protobuf outside peer_id.rs (%s)" % fx.cfg, n, 1, cfg=fx.cfg)
 
 
+def r18_6(ctx, fx):
+    """(feature `rsa`, `all` configuration) the peer id of an RSA key is the hash of the protobuf that embeds the DER
+    SubjectPublicKeyInfo *verbatim*, and R18.5's re-encoding only canonicalises the protobuf envelope.  So the DER decoder itself must
+    accept exactly one byte string per key: `rsa::PublicKey::try_decode_x509` yields a key only if the parser left no remainder
+    (`rest.is_empty()`) and the input equals the canonical re-encoding of the parsed key.  Otherwise one key (one signature) is
+    authenticated under as many peer ids as it has DER spellings (trailing bytes, other AlgorithmIdentifier, unused-bits octet)."""
+    key = "crypto::rsa::PublicKey::try_decode_x509"
+    if not fx.has(key):
+        ctx.anchor("R18.6", "rsa::PublicKey::try_decode_x509 (%s)" % fx.cfg, 0, 1, cfg=fx.cfg)
+        return
+    fn = fx.fn(key)
+    ctx.bodies.add((fx.cfg, key))
+    parse = fn.calls(r"FromDer(<.*>)?>?::from_der$")
+    ctx.anchor("R18.6", "try_decode_x509: SubjectPublicKeyInfo::from_der", len(parse), 1, cfg=fx.cfg)
+    # success sources: Ok aggregates, or the Result of a combinator chain over the parse result returned as is
+    srcs = [n for n, s in fn.aggregates(r"result::Result$", "Ok")]
+    for c in fn.calls(r"result::Result(<.*>)?::(map|and_then|map_err|or_else)$"):
+        if c.dest and c.dest[0] == 0 or (c.dest and 0 in fn.copies_of(c.dest[0])):
+            srcs.append(c.node)
+    for rn in fn.return_nodes():
+        pass
+    if not srcs:
+        # returned through a chain whose last link is not recognised: take the parse call itself as the source (fail closed)
+        srcs = [c.node for c in parse]
+    from_parse = lambda o: any(x.startswith("call:") and "from_der" in x for x in guards.rootstrs(fn, o))
+    empty_true = set()
+    for c in fn.calls(r"slice::(<impl \[T\]>::)?is_empty$|Vec(<.*>)?::is_empty$"):
+        if from_parse(c.args[0]):
+            for sw, t, f in fn.bool_tests(c.dest[0]):
+                empty_true.add((sw, t))
+    same = set()
+    for c in fn.calls(r"PartialEq(<.*>)?>?::(eq|ne)$|partial_eq::.*::(eq|ne)$"):
+        if len(c.args) != 2:
+            continue
+        rs = [guards.rootstrs(fn, a) for a in c.args]
+        inp = [any(x.startswith("param:_1") for x in r) for r in rs]
+        enc = []
+        for a in c.args:
+            pr = [d for d in fn.calls(r".") if d.dest and ("call:" + d.name) in guards.rootstrs(fn, a) and not re.search(r"from_der$", d.name) and any(from_parse(x) for x in d.args)]
+            enc.append(bool(pr))
+        if (inp[0] and enc[1]) or (inp[1] and enc[0]):
+            for sw, t, f in fn.bool_tests(c.dest[0]):
+                same.add((sw, t if c.name.endswith("eq") else f))
+    for i, n in enumerate(sorted(srcs)):
+        ctx.ob("R18.6", "try_decode_x509/key#%d-only-if-the-parser-left-no-remainder" % i, bool(empty_true) and n not in fn.reach([fn.entry], cut=empty_true), site=fn.site(n), cfg=fx.cfg,
+               detail="is_empty tests on the remainder of from_der: %d (trailing bytes change the peer id, not the key)" % len(empty_true))
+        ctx.ob("R18.6", "try_decode_x509/key#%d-only-if-the-input-is-the-canonical-encoding" % i, bool(same) and n not in fn.reach([fn.entry], cut=same), site=fn.site(n), cfg=fx.cfg,
+               detail="comparisons input == re-encoding of the parsed key: %d (the AlgorithmIdentifier and the unused-bits octet are otherwise free)" % len(same))
+
+
 def r18_4(ctx, fx):
     """sibling agreement with the reference on the byte parser: from_bytes decodes with the parser that must consume the whole
     input (Multihash::from_bytes), exactly like libp2p-identity, and hands that multihash to from_multihash"""
@@ -257,6 +307,7 @@ def run(ctx):
     r18_5(ctx, fx)
     if ctx.tier == "thorough":
         r18_5(ctx, ctx.facts("all"))   # the TLS / QUIC path exists only with the quic feature
+        r18_6(ctx, ctx.facts("all"))   # RSA identities exist only with the rsa feature
         import witness
         res, tail = witness.run()
         for w in ("PeerIdFieldIsPrivate", "PeerIdFieldNotAssignable"):
